@@ -754,6 +754,8 @@ class ContractSet:
                     raise Unsupported(f"emits of {c.target} raised {I.hobj(e.exc).cls.name}")
                 P.ghost.setdefault("events", {}).setdefault(ev_name, []).append(v)
             for n, src in spec.get("post", {}).items():
+                if "events(" in src:
+                    continue
                 t = self.eval_clause(I, c, src, sfr)
                 P.assume(t.term())
             ec = I.class_by_qual(q)
